@@ -24,11 +24,11 @@ CSRC = ["blobs.c", "cdiffraction.c", "cimaged11utils.c", "closest.c",
 
 CSUP = os.path.join(VERIF, "vlib", "csrc")
 
-ASAN_FLAGS = "-fsanitize=address,undefined -fno-omit-frame-pointer -g -O1"
+ASAN_FLAGS = "-fsanitize=address,undefined -fsanitize-recover=address -fno-omit-frame-pointer -g -O1"
 
 LIBFLAGS = {
     "plain": ["-O2"],
-    "asan": ["-O1", "-g", "-fno-omit-frame-pointer", "-fsanitize=address,undefined"],
+    "asan": ["-O1", "-g", "-fno-omit-frame-pointer", "-fsanitize=address,undefined", "-fsanitize-recover=address"],
     "avi0": ["-O2", "-ftrivial-auto-var-init=zero"],
     "aviP": ["-O2", "-ftrivial-auto-var-init=pattern"],
     "tsan": ["-O1", "-g", "-fno-omit-frame-pointer", "-fsanitize=thread"],
